@@ -174,6 +174,7 @@ static std::string run(const Sx& c) {
     try {
       f = CovFactory::createCovFunc(ECov::fromValue((int) c[1].i()), ctxt);
       if (f == nullptr) ok = 0; else if (f->hasParam()) f->setParam(c[2].d());
+      if (ok && kind == 4 && c.size() > 5 && c[5].size() > 0 && f->hasMarkovCoeffs()) f->setMarkovCoeffs(c[5].vd());
     } catch (...) { ok = 0; }
     o << "(" << ok;
     if (ok) {
